@@ -10,8 +10,10 @@ import (
 	"go/printer"
 	"go/token"
 	"go/types"
+	"path/filepath"
 	"sort"
 	"strings"
+	"unicode"
 
 	"golang.org/x/tools/go/ssa"
 )
@@ -680,4 +682,123 @@ func domConds(fn *ssa.Function, b *ssa.BasicBlock) []CondLit {
 		}
 	}
 	return out
+}
+
+// ruleHexGuard implements C08.R9: HexToAscii panics on characters that are not hex digits, so every call is dominated by the true
+// edges of IsHex tests for both characters.
+func ruleHexGuard(c *Ctx, rule string) {
+	r := c.R
+	h2a := c.Fn("ast", "HexToAscii")
+	isHex := c.Fn("ast", "IsHex")
+	if h2a == nil || isHex == nil {
+		r.Ob(rule, "anchor ast.HexToAscii / IsHex", "").Und("not found")
+		return
+	}
+	n := 0
+	for fn := range c.allFns {
+		if !c.isRepoFn(fn) || len(fn.Blocks) == 0 {
+			continue
+		}
+		k := 0
+		for _, call := range callsTo(fn, h2a) {
+			n++
+			k++
+			ob := r.Ob(rule, fmt.Sprintf("%s: HexToAscii #%d is reached only with two hex digits", fnName(fn), k), c.pos(call.Pos()))
+			tests := 0
+			for _, l := range domConds(fn, call.Block()) {
+				v := l.Cond
+				pol := l.Pol
+				if u, ok := v.(*ssa.UnOp); ok && u.Op == token.NOT {
+					v, pol = u.X, !pol
+				}
+				if cl, ok := v.(*ssa.Call); ok && cl.Call.StaticCallee() == isHex && pol {
+					tests++
+				}
+				// a predicate helper that itself tests both characters (`peekHexPair()`): it answers true only after two IsHex calls
+				if cl, ok := v.(*ssa.Call); ok && pol {
+					if g := cl.Call.StaticCallee(); g != nil && g != isHex && c.isRepoFn(g) && len(g.Blocks) > 0 {
+						if n := len(callsTo(g, isHex)); n >= 2 {
+							tests += n
+						}
+					}
+				}
+			}
+			if tests >= 2 {
+				ob.OKnt(fmt.Sprintf("dominated by the true edges of %d IsHex tests", tests))
+			} else {
+				ob.Bad(fmt.Sprintf("only %d IsHex test(s) dominate the call: HexToAscii panics (\"COULDN'T CONVERT\") on a character that is not a hex digit, so some source text makes Compile panic", tests))
+			}
+		}
+	}
+	r.Floor(rule, "call sites of HexToAscii", n, 1)
+}
+
+// ruleLexemeComparedRaw implements C15.R5: a token's Lexeme keeps the spelling of the source, so for keyword tokens (matched in any
+// case by the lexer) the parser may decide on the token kind only: a comparison of the raw Lexeme with a string constant accepts
+// `TRUE` as the keyword and then treats it differently from `true`.
+func ruleLexemeComparedRaw(c *Ctx, rule string) {
+	r := c.R
+	tokenT := c.NamedType("ast", "Token")
+	if tokenT == nil {
+		r.Ob(rule, "anchor ast.Token", "").Und("not found")
+		return
+	}
+	st := tokenT.Underlying().(*types.Struct)
+	lexIdx := -1
+	for i := 0; i < st.NumFields(); i++ {
+		if st.Field(i).Name() == "Lexeme" {
+			lexIdx = i
+		}
+	}
+	isLexeme := func(v ssa.Value) bool {
+		u, ok := v.(*ssa.UnOp)
+		if !ok || u.Op != token.MUL {
+			return false
+		}
+		fa, ok := u.X.(*ssa.FieldAddr)
+		return ok && fa.Field == lexIdx && types.Identical(deref(fa.X.Type()), tokenT)
+	}
+	var bad []string
+	first := ""
+	nreads := 0
+	for _, fn := range c.SrcFuncs("ast") {
+		if filepath.Base(c.Fset.Position(fn.Pos()).Filename) == "lexer.go" {
+			continue // the lexer builds the lexeme; its own comparisons are on the lower-cased text (C15.R3)
+		}
+		instrsOf(fn, func(in ssa.Instruction) {
+			if v, ok := in.(ssa.Value); ok && isLexeme(v) {
+				nreads++
+			}
+			b, ok := in.(*ssa.BinOp)
+			if !ok || (b.Op != token.EQL && b.Op != token.NEQ) {
+				return
+			}
+			for _, pair := range [][2]ssa.Value{{b.X, b.Y}, {b.Y, b.X}} {
+				k, ok := pair[1].(*ssa.Const)
+				if !ok || k.Value == nil || k.Value.Kind() != constant.String || !isLexeme(pair[0]) {
+					continue
+				}
+				word := constant.StringVal(k.Value)
+				letters := false
+				for _, ch := range word {
+					if unicode.IsLetter(ch) {
+						letters = true
+					}
+				}
+				if letters {
+					bad = append(bad, fmt.Sprintf("%s compares Lexeme with %q [%s]", fnName(fn), word, c.pos(b.Pos())))
+					if first == "" {
+						first = c.pos(b.Pos())
+					}
+				}
+			}
+		})
+	}
+	r.Stats["lexeme_reads_in_the_parser"] = nreads
+	ob := r.Ob(rule, "the parser never compares a token's raw spelling with a word", first)
+	if len(bad) == 0 {
+		ob.OKnt(fmt.Sprintf("%d reads of Token.Lexeme outside the lexer (numbers, strings, identifiers); none is compared with a word constant", nreads))
+	} else {
+		ob.Bad(strings.Join(bad, "; ") + ": the lexer accepts the keyword in any case but keeps the source spelling, so `TRUE` and `true` are the same token and would be treated differently here")
+	}
 }
